@@ -1,7 +1,18 @@
 (* C08 — the decision procedure accepts the save program and the load tree regenerated from json.py (Gen/C08Gen.v).
    Evaluated completely by vm_compute on every run; this is the obligation that fails when _save / _load stop being
    crash-atomic in the model. *)
-From QT Require Import C08.Check Gen.C08Gen.
+From QT Require Import C08.Check C08.Oper Gen.C08Gen.
 
 Lemma save_load_check : check_all save_prog load_prog = true.
 Proof. vm_compute. reflexivity. Qed.
+
+(* every path through every operation that saves (insert, update, replace, remove, ...) performs at most one save, as its last
+   step: the operation's crash states are those of that one save *)
+Lemma op_trees_check : forallb (fun nt : string * oprog => tree_ok (snd nt) && has_save (snd nt)) op_trees = true.
+Proof. vm_compute. reflexivity. Qed.
+
+Lemma op_tree_ok : forall name t, In (name, t) op_trees -> tree_ok t = true.
+Proof.
+  intros name t H. pose proof op_trees_check as C. rewrite forallb_forall in C. specialize (C _ H). simpl in C.
+  apply andb_prop in C. exact (proj1 C).
+Qed.
